@@ -539,12 +539,13 @@ nnls_normal_block_updown(cholmod_sparse *AtA, cholmod_dense *Atb, int verbose,
                 G[i] = i;
         ninf = nvar + 1;        /* Number of infeasible coefficients */
 
-        /* Drop small entries from the problem, replacing them with eels. 
+        /* Drop zero entries from the problem, replacing them with eels. 
          * Also drops the lower half of AtA if AtA->stype is 1. 
-         * "Small" is relative to the size of the matrix: an absolute
-         * threshold would remove significant entries (even the diagonal)
-         * of a problem whose data are merely small in magnitude. */
-        cholmod_l_drop(DBL_EPSILON*cholmod_l_norm_sparse(AtA, 0, c), AtA, c);
+         * Only exact zeros are removed: any threshold, absolute or
+         * relative to the norm of the whole matrix, removes significant
+         * entries (even diagonal ones) of a problem whose variables are
+         * merely small in magnitude or differ in scale. */
+        cholmod_l_drop(0.0, AtA, c);
         AtA->stype = 1;
 
         /* Set up the dual vector */
@@ -858,12 +859,13 @@ nnls_normal_block3(cholmod_sparse *AtA, cholmod_dense *Atb, int verbose,
 
         t0 = clock();
 
-        /* Drop small entries from the problem, replacing them with eels. 
+        /* Drop zero entries from the problem, replacing them with eels. 
          * Also drops the lower half of AtA if AtA->stype is 1. 
-         * "Small" is relative to the size of the matrix: an absolute
-         * threshold would remove significant entries (even the diagonal)
-         * of a problem whose data are merely small in magnitude. */
-        cholmod_l_drop(DBL_EPSILON*cholmod_l_norm_sparse(AtA, 0, c), AtA, c);
+         * Only exact zeros are removed: any threshold, absolute or
+         * relative to the norm of the whole matrix, removes significant
+         * entries (even diagonal ones) of a problem whose variables are
+         * merely small in magnitude or differ in scale. */
+        cholmod_l_drop(0.0, AtA, c);
         AtA->stype = 1;
 
         /*
